@@ -39,6 +39,7 @@ Proof.
   - eexists; reflexivity.
   - subst c. vm_compute in Hw. discriminate.
   - subst c. vm_compute in Hw. discriminate.
+  - unfold meta in Hc. destruct (is_enum c); discriminate.
 Qed.
 
 Lemma class_of_enum : forall o c, wf_obj o = true -> is_enum c = true -> class_of o = c ->
@@ -47,7 +48,29 @@ Proof.
   intros o c Hw He Hc. destruct o; simpl in Hc; subst c; try (vm_compute in He; discriminate).
   - exfalso. simpl in Hw. destruct c0; vm_compute in He, Hw; discriminate.
   - exists i. split; [reflexivity|]. simpl in Hw. apply Nat.ltb_lt in Hw. exact Hw.
+  - exfalso. unfold meta in He. destruct (is_enum c0); vm_compute in He; discriminate.
 Qed.
+
+Lemma class_of_enummeta : forall o, wf_obj o = true -> sub_art (class_of o) CEnumMeta = true ->
+  enum_class_object o = true.
+Proof.
+  intros o Hw Hc. destruct o; simpl in *; try (vm_compute in Hc; discriminate).
+  - destruct c; vm_compute in Hw, Hc; discriminate.
+  - destruct c; vm_compute in Hc; try discriminate; destruct i as [|[|i]]; vm_compute in Hw; discriminate.
+  - unfold meta in Hc. destruct (is_enum c); [reflexivity|vm_compute in Hc; discriminate].
+Qed.
+
+Lemma meta_mono : forall k c, sub_art k c = true -> sub_art (meta k) (meta c) = true.
+Proof. intros k c; destruct k, c; vm_compute; intros H; try discriminate; reflexivity. Qed.
+
+Lemma diamond_meta : forall c, diamond_cls (meta c) = false.
+Proof. destruct c; vm_compute; reflexivity. Qed.
+
+(* a class object of a non-enum class against a class c1 and a type[c2] pattern *)
+Lemma type_vs_sub_overlap : forall c1 c2,
+  sub_art CType c1 = true ->
+  sub_art (meta c2) c1 || (cls_eqb c1 CType || sub c1 CType && sub (meta c2) c1) = true.
+Proof. intros c1 c2; destruct c1, c2; vm_compute; intros H; try discriminate; reflexivity. Qed.
 
 (* ------------------------------------------------------------------ *)
 (* truthiness *)
@@ -140,7 +163,7 @@ Lemma comparable_of : forall o c1 c2,
   sub_art c1 c2 = true \/ sub_art c2 c1 = true.
 Proof.
   intros o c1 c2 Hd H1 H2. apply (no_diamond_comparable (class_of o)); try assumption.
-  destruct o; simpl in *; try exact Hd. apply diamond_type.
+  destruct o; simpl in *; try exact Hd. apply diamond_meta.
 Qed.
 
 Lemma deliteral_member : forall o b, member_b o b = true ->
@@ -161,9 +184,10 @@ Qed.
 
 Lemma overlap_lemma : forall o p b,
   member_b o p = true -> member_b o b = true -> multiple_inheritance o = false ->
+  enum_class_object o = false ->
   assignable (deliteral p) (deliteral b) || assignable (deliteral b) (deliteral p) = true.
 Proof.
-  intros o p b Hp Hb Hd.
+  intros o p b Hp Hb Hd He.
   pose proof (deliteral_member o p Hp) as Dp. pose proof (deliteral_member o b Hb) as Db.
   destruct (deliteral p) as [| |c1|c1|] eqn:Ep; try contradiction;
   destruct (deliteral b) as [| |c2|c2|] eqn:Eb; try contradiction; simpl; try reflexivity;
@@ -171,9 +195,11 @@ Proof.
   - (* typed, typed *)
     destruct (comparable_of o c1 c2 Hd Dp Db) as [H|H]; rewrite H; [apply orb_true_r|reflexivity].
   - (* typed c1, sub c2 *)
-    destruct Db as [k [-> Hk]]. simpl in Dp. rewrite Dp. reflexivity.
+    destruct Db as [k [-> Hk]]. simpl in Dp, He. unfold meta in Dp. rewrite He in Dp.
+    unfold isinst. simpl. apply (type_vs_sub_overlap c1 c2 Dp).
   - (* sub c1, typed c2 *)
-    destruct Dp as [k [-> Hk]]. simpl in Db. rewrite Db. apply orb_true_r.
+    destruct Dp as [k [-> Hk]]. simpl in Db, He. unfold meta in Db. rewrite He in Db.
+    unfold isinst. simpl. rewrite orb_comm. apply (type_vs_sub_overlap c2 c1 Db).
   - (* sub, sub *)
     destruct Dp as [k [-> Hk1]]. destruct Db as [k' [E Hk2]]. inversion E; subst k'.
     simpl in Hd.
@@ -182,19 +208,21 @@ Qed.
 
 Lemma overlapping_of_member : forall o pat s,
   existsb (member_b o) pat = true -> member_s o s = true -> multiple_inheritance o = false ->
+  enum_class_object o = false ->
   overlapping pat s = true.
 Proof.
-  intros o pat s Hp Hm Hd. apply existsb_exists in Hp. destruct Hp as [p [Hin Hp]].
+  intros o pat s Hp Hm Hd He. apply existsb_exists in Hp. destruct Hp as [p [Hin Hp]].
   unfold overlapping. apply existsb_exists. exists p. split; [exact Hin|].
-  apply (overlap_lemma o p (sbase s) Hp (member_s_base o s Hm) Hd).
+  apply (overlap_lemma o p (sbase s) Hp (member_s_base o s Hm) Hd He).
 Qed.
 
 Lemma isassign_pos_sound : forall pat po,
   ksound (KPred (PIsAssignable pat po) true)
-         (fun o => existsb (member_b o) pat = true /\ multiple_inheritance o = false).
+         (fun o => existsb (member_b o) pat = true /\ multiple_inheritance o = false
+                   /\ enum_class_object o = false).
 Proof.
-  intros pat po s o Hm [Hp Hd]. simpl. unfold pred_isassignable.
-  rewrite (overlapping_of_member o pat s Hp Hm Hd). simpl.
+  intros pat po s o Hm [Hp [Hd He]]. simpl. unfold pred_isassignable.
+  rewrite (overlapping_of_member o pat s Hp Hm Hd He). simpl.
   destruct (pat_assignable pat s).
   - destruct (univ_assignable (sbase s) pat).
     + rewrite member_map_plain. exact Hp.
@@ -208,9 +236,10 @@ Lemma assignable_sound : forall p b o,
   assignable p b = true -> member_b o b = true ->
   is_vtuple p = false ->
   univ_assignable b [p] = false ->
+  wf_obj o = true -> enum_class_object o = false ->
   member_b o p = true.
 Proof.
-  intros p b o Ha Hm Hp Hu.
+  intros p b o Ha Hm Hp Hu Hw He.
   destruct p as [|l|c|c|ms]; simpl in Hp; try discriminate; simpl.
   - reflexivity.
   - destruct b as [|l'|c'|c'|ms']; simpl in *; try discriminate.
@@ -218,11 +247,15 @@ Proof.
   - destruct b as [|l'|c'|c'|ms']; simpl in *; try discriminate.
     + apply obj_eqb_eq in Hm. subst l'. exact Ha.
     + apply (sub_art_trans _ c' _ Hm Ha).
-    + destruct o; try discriminate. exact Ha.
+    + destruct o; try discriminate. simpl. apply (sub_art_trans _ (meta c') _ (meta_mono _ _ Hm) Ha).
     + destruct o; try discriminate. exact Ha.
   - destruct b as [|l'|c'|c'|ms']; simpl in *; try discriminate.
     + apply obj_eqb_eq in Hm. subst l'. destruct o; try discriminate. exact Ha.
-    + apply cls_eqb_eq in Ha. subst c'. simpl in Hu. discriminate.
+    + apply orb_true_iff in Ha. destruct Ha as [Ha|Ha].
+      * apply cls_eqb_eq in Ha. subst c'. simpl in Hu. discriminate.
+      * exfalso. apply andb_true_iff in Ha. destruct Ha as [Hs Hi].
+        destruct c'; try (vm_compute in Hs; discriminate).
+        rewrite (class_of_enummeta o Hw Hm) in He. discriminate He.
     + destruct o; try discriminate. apply (sub_art_trans _ c' _ Hm Ha).
 Qed.
 
@@ -237,15 +270,16 @@ Qed.
 
 Lemma isassign_neg_sound : forall pat po,
   forallb (fun p => negb (is_vtuple p)) pat = true ->
-  ksound (KPred (PIsAssignable pat po) false) (fun o => existsb (member_b o) pat = false).
+  ksound (KPred (PIsAssignable pat po) false)
+         (fun o => existsb (member_b o) pat = false /\ wf_obj o = true /\ enum_class_object o = false).
 Proof.
-  intros pat po Hpat s o Hm Hp. simpl. unfold pred_isassignable.
+  intros pat po Hpat s o Hm [Hp [Hw He]]. simpl. unfold pred_isassignable.
   destruct (negb po && pat_assignable pat s && negb (univ_assignable (sbase s) pat)) eqn:E.
   - exfalso. apply andb_true_iff in E. destruct E as [E Hu]. apply andb_true_iff in E. destruct E as [_ Ha].
     apply negb_true_iff in Hu.
     unfold pat_assignable in Ha. apply existsb_exists in Ha. destruct Ha as [p [Hin Ha]].
     rewrite forallb_forall in Hpat. pose proof (Hpat p Hin) as Hvt. apply negb_true_iff in Hvt.
-    pose proof (assignable_sound p (sbase s) o Ha (member_s_base o s Hm) Hvt (univ_mono _ _ _ Hin Hu)) as Hmem.
+    pose proof (assignable_sound p (sbase s) o Ha (member_s_base o s Hm) Hvt (univ_mono _ _ _ Hin Hu) Hw He) as Hmem.
     assert (existsb (member_b o) pat = true) by (apply existsb_exists; exists p; split; assumption).
     rewrite H in Hp. discriminate.
   - rewrite member_single. exact Hm.
